@@ -786,9 +786,15 @@ class LLMGenerationActionsV2dotx(LLMGenerationActions):
         log.info("Generated value for $%s: %s", var_name, value)
 
         try:
-            return literal_eval(value)
+            literal_value = literal_eval(value)
         except Exception:
             raise Exception(f"Invalid LLM response: `{value}`")
+
+        # `...` is a valid Python literal, but not a value that can be used or stored.
+        if literal_value is Ellipsis:
+            raise Exception(f"Invalid LLM response: `{value}`")
+
+        return literal_value
 
     @action(name="GenerateFlowAction", is_system_action=True, execute_async=True)
     async def generate_flow(
